@@ -11,7 +11,7 @@ import pcverif as V
 PROPS = {
     "C01": dict(families="gating,gating,unsat,health,manual,shutdown,restart,exiton,gating,unsat,unsat",
                 need=["launchWithDeps"], model=["PCLifecycle_gating.cfg"], model_thorough=["PCLifecycle_gating.cfg", "PCLifecycle_gating3.cfg"]),
-    "C02": dict(families="restart,restart,restart,shutdown,health,manual,gating,restart,shutdown",
+    "C02": dict(families="restart,restart,restart,shutdown,health,manual,gating,restart,shutdown,daemon",
                 need=["relaunch", "backoff"], model=["PCLifecycle_restart.cfg"], model_thorough=["PCLifecycle_restart.cfg", "PCLifecycle_health.cfg"]),
     "C03": dict(families="shutdown,shutdown,shutdown,shutdown,restart,exiton,gating,manual",
                 need=["shutdownReturn"], model=["PCLifecycle_shutdown2.cfg"], model_thorough=["PCLifecycle_shutdown2.cfg", "PCLifecycle_shutdown.cfg"]),
@@ -21,9 +21,9 @@ PROPS = {
                 need=["skipped", "launchWithDeps"], model=["PCLifecycle_gating.cfg"], model_thorough=["PCLifecycle_gating.cfg", "PCLifecycle_gating3.cfg"]),
     "C08": dict(families="manual,manual,manual,manual,restart,health,manual",
                 need=["apiEnd", "launch"], model=["PCLifecycle_manualq.cfg"], model_thorough=["PCLifecycle_manualq.cfg", "PCLifecycle_manual.cfg", "PCLifecycle_manualconc.cfg"]),
-    "C09": dict(families="gating,restart,shutdown,exiton,manual,health,unsat",
+    "C09": dict(families="gating,restart,shutdown,exiton,manual,health,unsat,daemon",
                 need=["stateEv", "observeEnd", "atRest"], model=["PCLifecycle_gating.cfg", "PCLifecycle_restart.cfg"], model_thorough=["PCLifecycle_gating.cfg", "PCLifecycle_restart.cfg", "PCLifecycle_manualq.cfg"]),
-    "C10": dict(families="health,health,health,health,gating,health",
+    "C10": dict(families="health,health,health,daemon,daemon,gating,health",
                 need=["readyState", "fatalProbe"], model=["PCLifecycle_health.cfg"], model_thorough=["PCLifecycle_health.cfg"]),
     "C12": dict(families="shutdown,shutdown,shutdown,shutdown,gating,shutdown",
                 need=["signalOrderedWithDependents"], model=["PCLifecycle_shutdown2.cfg"], model_thorough=["PCLifecycle_shutdown2.cfg", "PCLifecycle_shutdown.cfg"]),
